@@ -637,4 +637,156 @@ theorem all_listings_page_len (sk : Cw1Subkeys.State) (fx : Cw3Fixed.State) (fl 
    (group_listMembers_page_len g cg limit).1, (stake_listMembers_page_len st c4 limit).1,
    (ics20_listAllowed_page_len ic ci limit).1, effLimit_le_max limit, effLimit_none⟩
 
+/-! ## Non-vacuity: a concrete state per contract where the hypotheses hold, with concrete pages -/
+
+/-- The sorted listing of a concrete map, from any sorted permutation of it (`mergeSort` does not reduce
+in the kernel). -/
+theorem sortedEntries_eq {κ ν : Type} [DecidableEq κ] {lt : κ → κ → Bool} (ht : StrictTotal lt) {m l : AMap κ ν}
+    (hm : AMap.NodupKeys m) (hl : Sorted lt l) (hp : m.Perm l) : sortedEntries lt m = l :=
+  Sorted.eq_of_perm ht (sortedEntries_sorted hm ht) hl ((sortedEntries_perm _ _).trans hp)
+
+/-- cw4-group: three members stored in the order `b, a, c`. -/
+def gEx : Cw4Group.State :=
+  { admin := some "adm", hooks := [], members := { cur := [("b", 2), ("a", 1), ("c", 3)], log := [] },
+    total := { cur := some 6, log := [] } }
+
+theorem gEx_nodup : AMap.NodupKeys gEx.members.cur := by unfold AMap.NodupKeys AMap.keys; decide
+theorem gEx_sorted : sortedEntries strLt gEx.members.cur = [("a", 1), ("b", 2), ("c", 3)] :=
+  sortedEntries_eq strictTotal_strLt gEx_nodup (by unfold Sorted; decide) (by decide)
+
+example : Cw4Group.queryListMembers gEx (some ⟨true, "a"⟩) (some 1) = .ok [("b", 2)] := by
+  rw [group_listMembers_eq, gEx_sorted]; rfl
+example : Cw4Group.queryListMembers gEx (some ⟨false, "a"⟩) (some 1) = .error "addr" := by
+  rw [group_listMembers_eq]; rfl
+example : fetchLoop (fun c => okItems (Cw4Group.queryListMembers gEx (c.map (⟨true, ·⟩)) (some 2))) (·.1) none 4
+    = [("a", 1), ("b", 2), ("c", 3)] :=
+  (group_listMembers_loop gEx_nodup (some 2) (by decide) (by decide)).trans gEx_sorted
+/-- the same state is reachable: instantiate with `b, a`, then the admin adds `c` -/
+example : (Cw4Group.instantiate ⟨some ⟨true, "adm"⟩, [(⟨true, "b"⟩, 2), (⟨true, "a"⟩, 1)]⟩ 1).map
+      (fun s => (Cw4Group.run s [⟨2, "adm", .updateMembers [] [(⟨true, "c"⟩, 3)]⟩]).members.cur)
+    = .ok [("a", 1), ("b", 2), ("c", 3)] := by
+  rfl
+/-- cw3-flex `ListVoters` reads the same group state -/
+example : Cw3Flex.listVoters gEx (some ⟨true, "b"⟩) none = .ok [("c", 3)] := by
+  show Cw4Group.queryListMembers gEx _ _ = _
+  rw [group_listMembers_eq, gEx_sorted]; rfl
+
+/-- cw4-stake: the same members. -/
+def stEx : Cw4Stake.State :=
+  { cfg := ⟨.native "ustake", 1, 1, .height 10⟩, admin := none, hooks := [], stake := [], claims := [],
+    members := { cur := [("b", 2), ("a", 1), ("c", 3)], log := [] }, total := 6 }
+
+theorem stEx_nodup : AMap.NodupKeys stEx.members.cur := by unfold AMap.NodupKeys AMap.keys; decide
+theorem stEx_sorted : sortedEntries strLt stEx.members.cur = [("a", 1), ("b", 2), ("c", 3)] :=
+  sortedEntries_eq strictTotal_strLt stEx_nodup (by unfold Sorted; decide) (by decide)
+example : Cw4Stake.queryListMembers stEx none (some 2) = .ok [("a", 1), ("b", 2)] := by
+  rw [stake_listMembers_eq, stEx_sorted]; rfl
+example : Cw4Stake.queryListMembers stEx (some ⟨false, "zz"⟩) none = .error "addr" := by
+  rw [stake_listMembers_eq]; rfl
+example : fetchLoop (fun c => okItems (Cw4Stake.queryListMembers stEx (c.map (⟨true, ·⟩)) (some 1))) (·.1) none 4
+    = [("a", 1), ("b", 2), ("c", 3)] :=
+  (stake_listMembers_loop stEx_nodup (some 1) (by decide) (by decide)).trans stEx_sorted
+
+/-- cw1-subkeys: three allowances; the one of `b` expired at height 5. -/
+def skEx : Cw1Subkeys.State :=
+  { cfg := ⟨["admin"], true⟩,
+    allowances := [("c", ⟨[("ua", 3)], .never⟩), ("b", ⟨[("ua", 2)], .atHeight 5⟩), ("a", ⟨[("ua", 1)], .never⟩)],
+    permissions := [("b", ⟨true, false, false, false⟩), ("a", ⟨false, true, false, false⟩)] }
+
+theorem skEx_nodup : Cw1Subkeys.NodupInv skEx :=
+  ⟨by unfold AMap.NodupKeys AMap.keys; decide, by unfold AMap.NodupKeys AMap.keys; decide⟩
+theorem skEx_sorted : sortedEntries strLt skEx.allowances
+    = [("a", ⟨[("ua", 1)], .never⟩), ("b", ⟨[("ua", 2)], .atHeight 5⟩), ("c", ⟨[("ua", 3)], .never⟩)] :=
+  sortedEntries_eq strictTotal_strLt skEx_nodup.allowances (by unfold Sorted; decide) (by decide)
+/-- at height 10 the page of two skips the expired `b` and still holds two items: filter before `take` -/
+example : Cw1Subkeys.queryAllAllowances skEx ⟨10, 0⟩ none (some 2)
+    = [("a", ⟨[("ua", 1)], .never⟩), ("c", ⟨[("ua", 3)], .never⟩)] := by
+  simp only [Cw1Subkeys.queryAllAllowances, skEx_sorted]; decide
+example : Cw1Subkeys.queryAllAllowances skEx ⟨4, 0⟩ none (some 2)
+    = [("a", ⟨[("ua", 1)], .never⟩), ("b", ⟨[("ua", 2)], .atHeight 5⟩)] := by
+  simp only [Cw1Subkeys.queryAllAllowances, skEx_sorted]; decide
+example : fetchLoop (fun c => Cw1Subkeys.queryAllAllowances skEx ⟨10, 0⟩ c (some 1)) (·.1) none 4
+    = [("a", ⟨[("ua", 1)], .never⟩), ("c", ⟨[("ua", 3)], .never⟩)] := by
+  rw [subkeys_allAllowances_loop skEx_nodup.allowances ⟨10, 0⟩ (some 1) (by decide) (by decide), skEx_sorted]
+  decide
+example : Cw1Subkeys.queryAllPermissions skEx (some "a") none = [("b", ⟨true, false, false, false⟩)] := by
+  have h : sortedEntries strLt skEx.permissions
+      = [("a", ⟨false, true, false, false⟩), ("b", ⟨true, false, false, false⟩)] :=
+    sortedEntries_eq strictTotal_strLt skEx_nodup.permissions (by unfold Sorted; decide) (by decide)
+  simp only [Cw1Subkeys.queryAllPermissions, h]; decide
+
+/-- cw20-ics20: two allowed tokens. -/
+def icEx : Ics20.State :=
+  { config := ⟨60, none⟩, admin := some "gov", allow := [("tokb", some 5), ("toka", none)], channels := [],
+    chan := [], versionName := Ics20.CONTRACT_NAME, version := Ics20.CONTRACT_VERSION }
+
+theorem icEx_nodup : AMap.NodupKeys icEx.allow := by unfold AMap.NodupKeys AMap.keys; decide
+theorem icEx_sorted : sortedEntries strLt icEx.allow = [("toka", none), ("tokb", some 5)] :=
+  sortedEntries_eq strictTotal_strLt icEx_nodup (by unfold Sorted; decide) (by decide)
+example : Ics20.queryListAllowed icEx (some ⟨true, "toka"⟩) none = .ok [("tokb", some 5)] := by
+  rw [ics20_listAllowed_eq, icEx_sorted]; rfl
+example : Ics20.queryListAllowed icEx (some ⟨false, "toka"⟩) none = .error "addr" := by
+  rw [ics20_listAllowed_eq]; rfl
+example : fetchLoop (fun c => okItems (Ics20.queryListAllowed icEx (c.map (⟨true, ·⟩)) none)) (·.1) none 3
+    = [("toka", none), ("tokb", some 5)] :=
+  (ics20_listAllowed_loop icEx_nodup none (by decide) (by decide)).trans icEx_sorted
+
+/-- cw3 core (used by both multisigs): proposal 2 stored before proposal 1, both no longer open; two ballots on 1. -/
+def prEx (st : Cw3.Status) : Cw3Core.Proposal :=
+  { title := "t", description := "d", startHeight := 1, expires := .atHeight 100, msgs := [], status := st,
+    threshold := .absoluteCount 2, totalWeight := 3, votes := ⟨2, 0, 0, 0⟩, proposer := "a", deposit := none }
+
+def cEx : Cw3Core.Core :=
+  { count := 2, proposals := [(2, prEx .rejected), (1, prEx .executed)],
+    ballots := [(1, [("b", ⟨1, .yes⟩), ("a", ⟨1, .yes⟩)])] }
+
+theorem cEx_nodup : AMap.NodupKeys cEx.proposals := by unfold AMap.NodupKeys AMap.keys; decide
+theorem cEx_sorted : sortedEntries natLt cEx.proposals = [(1, prEx .executed), (2, prEx .rejected)] :=
+  sortedEntries_eq strictTotal_natLt cEx_nodup (by unfold Sorted; decide) (by decide)
+theorem cEx_status (blk : Block) : StatusTotal cEx blk := by
+  intro id p hp
+  have hm := AMap.get?_some_mem hp
+  simp only [cEx, List.mem_cons, Prod.mk.injEq, List.not_mem_nil, or_false] at hm
+  rcases hm with ⟨_, rfl⟩ | ⟨_, rfl⟩ <;> exact ⟨_, rfl⟩
+
+example : Cw3Core.listProposals cEx ⟨7, 0⟩ (some 1) none = .ok [Cw3Core.viewD ⟨7, 0⟩ (2, prEx .rejected)] := by
+  rw [core_listProposals_eq cEx_nodup (cEx_status _), cEx_sorted]; rfl
+example : Cw3Core.reverseProposals cEx ⟨7, 0⟩ (some 2) none = .ok [Cw3Core.viewD ⟨7, 0⟩ (1, prEx .executed)] := by
+  rw [core_reverseProposals_eq cEx_nodup (cEx_status _),
+    sortedEntriesDesc_eq_reverse cEx_nodup strictTotal_natLt, cEx_sorted]; rfl
+example : fetchLoop (fun c => okItems (Cw3Core.reverseProposals cEx ⟨7, 0⟩ c (some 1))) (·.id) none 3
+    = [Cw3Core.viewD ⟨7, 0⟩ (2, prEx .rejected), Cw3Core.viewD ⟨7, 0⟩ (1, prEx .executed)] := by
+  have h := core_reverseProposals_loop cEx_nodup (cEx_status ⟨7, 0⟩) (some 1) (by decide) (fuel := 3) (by decide)
+  rw [cEx_sorted] at h
+  exact (Except.ok.inj h).symm
+
+/-- the ballots of proposal 1, as listed by cw3-fixed (raw cursor) and cw3-flex (validated cursor) -/
+theorem cEx_ballots : sortedEntries strLt (Cw3Core.ballotsOf cEx 1) = [("a", ⟨1, .yes⟩), ("b", ⟨1, .yes⟩)] :=
+  sortedEntries_eq strictTotal_strLt (by unfold AMap.NodupKeys AMap.keys; decide) (by unfold Sorted; decide) (by decide)
+example : Cw3Fixed.listVotes ⟨⟨.absoluteCount 2, 3, .height 100⟩, [("b", 1), ("a", 2)], cEx⟩ 1 (some "a") none
+    = [("b", ⟨1, .yes⟩)] := by
+  simp only [Cw3Fixed.listVotes, Cw3Core.listVotes, cEx_ballots]; decide
+example : Cw3Flex.listVotes ⟨⟨.absoluteCount 2, .height 100, "grp", none, none⟩, cEx⟩ 1 (some ⟨true, "a"⟩) none
+    = .ok [("b", ⟨1, .yes⟩)] := by
+  rw [flex_listVotes_eq]; simp only [cEx_ballots]; rfl
+example : Cw3Flex.listVotes ⟨⟨.absoluteCount 2, .height 100, "grp", none, none⟩, cEx⟩ 1 (some ⟨false, "a"⟩) none
+    = .error "addr" := by
+  rw [flex_listVotes_eq]; rfl
+example : Cw3Fixed.listVoters ⟨⟨.absoluteCount 2, 3, .height 100⟩, [("b", 1), ("a", 2)], cEx⟩ none (some 1)
+    = [("a", 2)] := by
+  have h : sortedEntries strLt ([("b", 1), ("a", 2)] : AMap Addr Nat) = [("a", 2), ("b", 1)] :=
+    sortedEntries_eq strictTotal_strLt (by unfold AMap.NodupKeys AMap.keys; decide) (by unfold Sorted; decide) (by decide)
+  simp only [Cw3Fixed.listVoters, h]; decide
+
+/-- `StatusTotal` is a real restriction outside reachable cw3-fixed states: a stored open proposal whose abstain
+weight exceeds its recorded total makes `current_status`, hence both proposal listings, fail. -/
+def cBad : Cw3Core.Core :=
+  { count := 1,
+    proposals := [(1, { prEx .open with threshold := .absolutePercentage Cw3.DEC_ONE, totalWeight := 1, votes := ⟨1, 0, 2, 0⟩ })],
+    ballots := [] }
+example : (Cw3Core.listProposals cBad ⟨7, 0⟩ none none).isOk = false := by
+  have h : sortedEntries natLt cBad.proposals = cBad.proposals :=
+    sortedEntries_of_sorted strictTotal_natLt (by unfold Sorted; decide)
+  simp only [Cw3Core.listProposals, h]; decide
+
 end CwPlus.Props.C20Listings
